@@ -30,7 +30,7 @@ func TestCheck(t *testing.T) {
 	r.Require("decisions", 100)
 	r.Require("byz_msgs_accepted", 100)
 
-	n := r.N(6000, 600000)
+	n := r.N(6000, 150000)
 	r.Cases(n, 0, func(c *kit.Case) {
 		res := qbftsim.RunAsyncCase(c.Rng)
 		account(c, res)
